@@ -280,7 +280,15 @@ func (p *Printer) stmt(sb *strings.Builder, s Stmt, d int) {
 			fmt.Fprintf(sb, "%s%s %s %s ist %s Mal %s.\n", in, s.T.Article(), s.T.Src(), s.Name, p.operand(r.N, pPrimary), p.operand(r.X, pPrimary))
 			return
 		}
-		fmt.Fprintf(sb, "%s%s %s %s ist %s.\n", in, s.T.Article(), s.T.Src(), s.Name, p.Expr(s.Init))
+		art := s.T.Article()
+		if s.BadArticle {
+			art = map[string]string{"Die": "Der", "Der": "Die"}[art]
+		}
+		fmt.Fprintf(sb, "%s%s %s %s ist %s.\n", in, art, s.T.Src(), s.Name, p.Expr(s.Init))
+	case *Raw:
+		for _, l := range strings.Split(strings.TrimRight(s.Text, "\n"), "\n") {
+			sb.WriteString(in + l + "\n")
+		}
 	case *Assign:
 		fmt.Fprintf(sb, "%sSpeichere %s in %s.\n", in, p.Expr(s.X), p.lvalue(s.Target))
 	case *Compound:
@@ -420,6 +428,10 @@ func (p *Printer) Program(pr *Program) string {
 	sb.WriteString("Binde \"Duden/Ausgabe\" ein.\n\n")
 	for _, s := range pr.Structs {
 		p.structDecl(&sb, s)
+	}
+	if len(pr.Prelude) > 0 {
+		p.stmts(&sb, pr.Prelude, 0)
+		sb.WriteString("\n")
 	}
 	for _, f := range pr.Funcs {
 		p.funcDecl(&sb, f)
